@@ -30,6 +30,12 @@ def field(es, name, default=None):
 
 
 # ---------------------------------------------------------------- deterministic random
+def set_random(ns, v):
+    """swap the `random` module object the builtins use (a change of the library may have removed it: then leave things alone)"""
+    if v is not None and hasattr(ns.functions, 'random'):
+        ns.functions.random = v
+
+
 class FakeRandom:
     """same LCG as Sq.lcgNext in the model"""
 
@@ -299,7 +305,7 @@ def run_eval(im, es, observe=None):
             parts.append(f'({nm} {sqimpl.tree(ns, lam)})')
         ast_extra = ' (astnames ' + ' '.join(parts) + ')'
     fake = FakeRandom(rng)
-    real_random, real_regex = ns.functions.random, ns.functions.regex
+    real_random, real_regex = getattr(ns.functions, 'random', None), getattr(ns.functions, 'regex', None)
     rx = RxRecorder(real_regex if not isinstance(real_regex, RxRecorder) else real_regex._real)
     states = []
     VM = ns.vs.VMState
@@ -308,7 +314,7 @@ def run_eval(im, es, observe=None):
         s = VM(*a, **k)
         states.append(s)
         return s
-    ns.functions.random, ns.functions.regex = fake, rx
+    set_random(ns, fake); ns.functions.regex = rx
     ns.sp.VMState = vm_factory
     info = {'host': host, 'names': names, 'rx': rx, 'states': states}
     try:
@@ -324,7 +330,11 @@ def run_eval(im, es, observe=None):
             res, out = None, 'err ' + im.classify(e)
             info['exc'] = e
     finally:
-        ns.functions.random, ns.functions.regex = real_random, real_regex
+        set_random(ns, real_random)
+        if real_regex is not None:
+            ns.functions.regex = real_regex
+        elif hasattr(ns.functions, 'regex'):
+            del ns.functions.regex
         ns.sp.VMState = VM
     info['result'] = res
     w = Writer(ns, host)
@@ -417,7 +427,7 @@ def run_session(im0, es, observe=None):
     maps = rd.val(field(es, 'heap')[0])
     outs, texts = [], []
     VM = ns.vs.VMState
-    real_random = ns.functions.random
+    real_random = getattr(ns.functions, 'random', None)
     for c in field(es, 'calls'):
         kindc = c[0]
         if kindc == 'parse':
@@ -456,7 +466,7 @@ def run_session(im0, es, observe=None):
                 states.append(s)
                 return s
             ns.sp.VMState = vm_factory
-            ns.functions.random = FakeRandom(int(c[4]))
+            set_random(ns, FakeRandom(int(c[4])))
             kw = {} if c[3] == 'default' else {'max_ops_evaluated': int(c[3])}
             w = Writer(ns, host)
             try:
@@ -472,7 +482,7 @@ def run_session(im0, es, observe=None):
                     hd = 'err ' + im.classify(e)
             finally:
                 ns.sp.VMState = VM
-                ns.functions.random = real_random
+                set_random(ns, real_random)
             outs.append(f'{hd} ;; names {w.val(names) if names is not None else "-"} ;; ops {states[0].ops_evaluated if states else 0}')
         elif kindc == 'hostpush':
             names = maps[int(c[1])]
